@@ -278,7 +278,20 @@ fn special_programs() -> Vec<(String, Vec<RealMode>)> {
     let pat = |p: &str, tt: usize| crate::parse::RealPat { pattern: p.to_string(), tt, la: None };
     let names = ["A\"B", "back\\slash", "ünï cödé", "sp ace", "semi;colon", "brace{}", "q\"\"", "tab\there", "x]y[", "-->", "a=b,c",
         "V1.5", "dot.", ".hidden", "a.b.c"];
-    names
+    // long patterns of characters of every UTF-8 width, shifted byte by byte: whatever text of the
+    // patterns the export copies into the picture (titles, labels), cut anywhere, meets a
+    // character boundary problem in one of them
+    let mut long: Vec<(String, Vec<RealMode>)> = (0..12)
+        .map(|k| {
+            let body = format!("{}{}", "x".repeat(k), "é€𝄞日".repeat(25));
+            (
+                format!("long#{k}"),
+                vec![RealMode { name: format!("L{k}"), pats: vec![pat(&body, 1), pat(&format!("{}|ü+", "😀ж".repeat(20)), 2),
+                    crate::parse::RealPat { pattern: "ю".into(), tt: 3, la: Some((true, "日本".repeat(30))) }], trans: vec![] }],
+            )
+        })
+        .collect();
+    let mut named: Vec<(String, Vec<RealMode>)> = names
         .iter()
         .enumerate()
         .map(|(k, n)| {
@@ -290,7 +303,9 @@ fn special_programs() -> Vec<(String, Vec<RealMode>)> {
                 ],
             )
         })
-        .collect()
+        .collect();
+    named.append(&mut long);
+    named
 }
 
 /// `dotcheck <out dir> <scratch dir> <source>...` -> <out>/dotcases.json
